@@ -36,6 +36,9 @@ var collTypes = []*TypeX{
 	{Kind: "slice", Src: "[]string"}, {Kind: "slice", Src: "[]int"}, {Kind: "slice", Src: "[]byte", Bytes: true},
 	{Kind: "array", Src: "[3]int", N: 3}, {Kind: "array", Src: "[1]string", N: 1},
 	{Kind: "map", Src: "map[string]int"}, {Kind: "chan", Src: "chan int"},
+	// collections whose element type is an anonymous struct written inline (set idiom, signal channel, row lists)
+	{Kind: "map", Src: "map[string]struct{}", Elem: "struct{}{}"}, {Kind: "chan", Src: "chan struct{}", Elem: "struct{}{}"},
+	{Kind: "slice", Src: "[]struct{ Name string }"}, {Kind: "array", Src: "[2]struct{}", N: 2},
 }
 var refTypes = []*TypeX{
 	{Kind: "ptr", Src: "*int"}, {Kind: "ptr", Src: "*string"}, {Kind: "iface", Src: "any"}, {Kind: "iface", Src: "error"},
@@ -438,7 +441,8 @@ func manyItems(n int) []string {
 	return out
 }
 
-var enumStrPools = [][]string{manyItems(9), manyItems(12), manyItems(30), {"New  York", "Boston"}, {"a\tb", "a b"}, {"x   y  z"}, {"a", "b", "c"}, {"red", "green", "blue"}, {"A", "a"}, {"x"}, {"hello world", "x y"}, {"café", "日本"}, {"a", "a", "b"}, {"1", "2"}, {"pending", "active", "Active", "done", "x", "y", "z", "w"}}
+var enumStrPools = [][]string{manyItems(9), manyItems(12), manyItems(30), {"New  York", "Boston"}, {"a\tb", "a b"}, {"x   y  z"}, {"a", "b", "c"}, {"red", "green", "blue"}, {"A", "a"}, {"x"}, {"hello world", "x y"}, {"café", "日本"}, {"a", "a", "b"}, {"1", "2"}, {"pending", "active", "Active", "done", "x", "y", "z", "w"},
+	{"N/A", "\"\"", "none", "null", "nil"}, {"--", "++", "**", "//", "\\"}, {"ab", "cd", "ef", "gh", "\"", "ij"}, {"tab\there", "plain", "other", "fourth", "fifth"}}
 
 func (g *gen) enumMarker(t *TypeX) Marker {
 	u := t.Underlying()
@@ -942,6 +946,19 @@ func (g *gen) famCombo(id string, count int, primary []string) []*Scenario {
 		if g.rng.Intn(4) == 0 {
 			f.Type = g.aliasOver(stringT)
 		}
+		// half-migrated sources: the two spellings mixed inside one doc comment (legacy first, new first, alternating)
+		switch s % 4 {
+		case 1:
+			ms[0].Legacy = true
+		case 2:
+			for i := 1; i < len(ms); i++ {
+				ms[i].Legacy = true
+			}
+		case 3:
+			for i := range ms {
+				ms[i].Legacy = i%2 == 0
+			}
+		}
 		switch g.rng.Intn(3) {
 		case 0: // all on the field
 			f.Markers = ms
@@ -1202,8 +1219,15 @@ func (g *gen) famC08(id string, count int) []*Scenario {
 			for _, d := range sc.Decls {
 				pd := *d
 				pd.Fields = append([]*Field{}, d.Fields[:len(d.Fields)-8]...)
+				// (a struct without any marker generates nothing today; had it carried rules before, its stale validator
+				// file would stay — the generator never deletes files — so such structs get no rules in the history either)
+				marked := len(d.Markers) > 0 || anyMarked(d.Fields)
 				for k := 0; k < 8; k++ {
 					var ms []Marker
+					if !marked {
+						pd.Fields = append(pd.Fields, &Field{Names: []string{fmt.Sprintf("Zpre%d", k)}, Type: stringT})
+						continue
+					}
 					for _, m := range []Marker{{ID: "required"}, {ID: "minlength", Expr: "3", HasExpr: true}, {ID: "maxlength", Expr: "40", HasExpr: true}} {
 						dup := false
 						for _, tm := range d.Markers {
@@ -1422,6 +1446,15 @@ func (g *gen) famTwoLevel(id string, rules []string, types []*TypeX) []*Scenario
 	return out
 }
 
+func anyMarked(fs []*Field) bool {
+	for _, f := range fs {
+		if len(f.Markers) > 0 || (f.Nested != nil && anyMarked(f.Nested)) {
+			return true
+		}
+	}
+	return false
+}
+
 // hasMarkedNest: some nested anonymous struct field of the declaration carries markers of its own
 func hasMarkedNest(fs []*Field) bool {
 	for _, f := range fs {
@@ -1627,5 +1660,49 @@ func (g *gen) corpusDoc(id string) []*Scenario {
 	sc.Decls = []*Decl{d, d2}
 	sc.Values["Prose"] = g.structValues(d, 8)
 	sc.Values["ProseFlat"] = g.structValues(d2, 6)
+	return []*Scenario{sc}
+}
+
+// famBig (C17): length rules with limits of 1024 and more on values of 16 KiB and 1 MiB — all ASCII, multi-byte, and long runs
+// of continuation bytes, 0xFF bytes and truncated sequences (ill-formed UTF-8), where a decoder that backs up or skips
+// ahead has no rune boundary to find.
+func (g *gen) famBig(id string) []*Scenario {
+	sc := newScenario(id + "big")
+	g.sc = sc
+	mk := func(id, n string) Marker { return Marker{ID: id, Expr: n, HasExpr: true} }
+	d := &Decl{Name: "Big", Fields: []*Field{
+		{Names: []string{"A"}, Type: stringT, Markers: []Marker{mk("maxlength", "2048")}},
+		{Names: []string{"B"}, Type: stringT, Markers: []Marker{mk("minlength", "1024")}},
+		{Names: []string{"C"}, Type: stringT, Markers: []Marker{mk("length", "1500")}},
+		{Names: []string{"D"}, Type: stringT, Markers: []Marker{mk("maxlength", "1024"), mk("minlength", "2")}},
+	}}
+	var big []string
+	for _, unit := range []string{"a", "\x80", "\xbf", "\xff", "é", "\xe2\x82", "€", "\U0001f600", "\xf0\x9f"} {
+		big = append(big, strings.Repeat(unit, 16384/len(unit)))
+	}
+	big = append(big, "\xf0"+strings.Repeat("\x80", 16383), "a"+strings.Repeat("\xbf", 9000), strings.Repeat("\x80", 4100)+"abc", strings.Repeat("\x80", 1<<20), strings.Repeat("a", 1<<20),
+		strings.Repeat("x", 1500), strings.Repeat("é", 1500), strings.Repeat("x", 1024), strings.Repeat("x", 1025), strings.Repeat("x", 2048), strings.Repeat("x", 2049), "", "ab")
+	var vals []*SVal
+	for i, s := range big {
+		root := &SVal{Kind: "st"}
+		for fi, f := range d.Fields {
+			v := strVal(stringT, "ok")
+			if fi == i%4 || i >= len(big)-8 {
+				v = strVal(stringT, s)
+			}
+			root.Fields = append(root.Fields, NamedVal{Name: f.Names[0], V: v})
+		}
+		vals = append(vals, root)
+	}
+	// every field holding the same huge ill-formed value
+	for _, s := range []string{strings.Repeat("\x80", 20000), strings.Repeat("\xbf", 1<<20)} {
+		root := &SVal{Kind: "st"}
+		for _, f := range d.Fields {
+			root.Fields = append(root.Fields, NamedVal{Name: f.Names[0], V: strVal(stringT, s)})
+		}
+		vals = append(vals, root)
+	}
+	sc.Decls = []*Decl{d}
+	sc.Values["Big"] = vals
 	return []*Scenario{sc}
 }
